@@ -6,7 +6,7 @@ about loops, the items they visit and what is inserted / pushed for an item, not
 from .common import *
 from .feas import (check_feasibility_rule, origins, PathEval, const_operand, absent_inserts, error_propagates, result_kind,
                    canon, whole, is_const, item_calls, enum_tests, generic_param,
-                   dominates_ok, dominates_sem, must_pass_sem, loop_must2 as loop_must, returned_struct, field_is_none, with_renormalised)
+                   dominates_ok, dominates_sem, must_pass_sem, loop_must2 as loop_must, returned_struct, field_is_none, with_renormalised, value_sources)
 from .C05 import inherited_from
 
 INST = 'v1::Instance'; DV = 'v1::DecisionVariable'; CON = 'v1::Constraint'; RC = 'v1::RemovedConstraint'
@@ -202,6 +202,14 @@ def evaluate_samples_rules(ctx, body):
                 il = inner[0]
                 okfill = il[0].dst['l'] in ctx.S.slice_operand(body, a['value']).locals and il[0].dst['l'] in ctx.S.slice_operand(body, a['key']).locals \
                          and must_pass_sem(ctx, body, some_bb, {header}, {il[1]}) and (not ed or dominates_sem(ctx, body, ed[0].bb, il[1])) and not restricting(ctx, body, il)
+        # ... and present values are not touched by the completion (sibling of C05.state/fill/present-values-untouched)
+        fills = [a['call'] for a in absent_inserts(ctx, body, blocks)]
+        inner_blocks = set()
+        for l in loops_over(ctx, body, INST, 'decision_variables'):
+            if any(f.bb in l[4] for f in fills) and set(l[4]) < set(blocks): inner_blocks |= set(l[4])
+        others = [x for x in body.calls if x.bb in inner_blocks and x not in fills and x.item != 'entry' and nextc.dst['l'] in ctx.S.slice_operand(body, x.args[0]).locals
+                  and (T.MUT_CALL.search(x.name) or re.search(r'OccupiedEntry(::)?<.*>::(insert|get_mut|into_mut|remove|remove_entry)', x.name) or re.search(r'HashMap::<.*>::(get_mut|values_mut|iter_mut)', x.name))] if inner_blocks else []
+        ctx.check(not others, 'C06.sibling/fill-present-values-untouched', 'T-SIBLING', body.name, 'the completion loop also writes entries the state already has: %s' % [x.name[:70] for x in others][:2], body.site(others[0].bb) if others else body.site(nextc.bb))
         ctx.check(okfill, 'C06.sibling/fill-nearest_to_zero', 'T-SIBLING', body.name,
                   'omitted irrelevant variables are not completed with Bound::nearest_to_zero for every state, after its dependencies (Instance::evaluate does this)', body.site(nextc.bb))
         # a bound check, if there is one, looks at the states AS SUBMITTED (Instance::evaluate checks before anything is evaluated or completed):
@@ -819,7 +827,7 @@ def compress_rules(ctx):
         restr = sorted({x.item for x in s.call_objs if x.item in RESTRICTING and 'Iterator' in (x.trait or '')})
         ctx.check(s.has_field('v1::Samples', 'entries') and s.has_field('v1::samples::SamplesEntry', 'ids') and not restr, R + '/ids/all', 'T-CARRY', b.name, 'ids() does not enumerate the ids of every entry', b.site())
     b = ctx.method(R + '/transpose/anchor', 'v1::Samples', 'transpose')
-    if b is not None: transpose_rules(ctx, R, b)
+    if b is not None: with_renormalised(ctx, b, lambda bd: transpose_rules(ctx, R, bd))
 
 
 def transpose_rules(ctx, R, b):
@@ -843,7 +851,12 @@ def transpose_rules(ctx, R, b):
             for a, f in (('v1::Samples', 'entries'), (ENT, 'ids'), (ENT, 'state')):
                 if not allf(a, f): why.append('no loop over %s.%s' % (a.split('::')[-1], f))
             # the pushed value is a sample id of the entry: from an enclosing loop, not from the state pair
-            if not (vs.has_field(ENT, 'ids') and any(l[0].dst['l'] in vs.locals for l in outer) and inner[0].dst['l'] not in vs.locals): why.append('pushed value is not the sample id')
+            by_slice = any(l[0].dst['l'] in vs.locals for l in outer) and inner[0].dst['l'] not in vs.locals
+            # (the slice mixes the components of a tuple that is copied as a whole -- `(variable, value, sample)` triples handed from a map closure to a for_each
+            #  closure; value_sources follows the component itself)
+            leaves = value_sources(b, c.args[1])
+            by_component = bool(leaves) and all(k == 'call' and obj.bb in {l[0].bb for l in outer} for k, bb, obj, pending in leaves)
+            if not (vs.has_field(ENT, 'ids') and (by_slice or by_component)): why.append('pushed value is not the sample id')
             # ... of the SAME entry whose state is walked: id and state hang on the item of one common loop
             if not any(l[0].dst['l'] in vs.locals and l[0].dst['l'] in its[-1].locals for l in outer): why.append('sample id and state do not belong to the same entry')
             # keyed by (variable id, value) of this pair: two map lookups (chained or one after the other), one of them under OrderedFloat(value)
@@ -880,5 +893,5 @@ def check(ctx):
     get_rules(ctx)
     compress_rules(ctx)
     # floors = decided instances per family on the pinned tree
-    ctx.floor('C06.samples', 50); ctx.floor('C06.keys', 4); ctx.floor('C06.sibling', 11); ctx.floor('C06.constraint', 31); ctx.floor('C06.rule', 15)
+    ctx.floor('C06.samples', 50); ctx.floor('C06.keys', 4); ctx.floor('C06.sibling', 12); ctx.floor('C06.constraint', 31); ctx.floor('C06.rule', 15)
     ctx.floor('C06.kernel', 20); ctx.floor('C06.get', 16); ctx.floor('C06.compress', 12); ctx.floor('C06.cover', 22)
